@@ -1093,12 +1093,28 @@ package fzf
 //@ requires t != nil && color != nil
 //@ ensures r0 != nil ==> r1 > 0
 //@ ensures r0 == nil ==> r1 == 0
+// updatePromptOffset: the horizontal scroll offset of the query stays within [0, cursor], so the slice of the
+// query before the cursor exists (F14: with tabs in the query the upper bound could pass the cursor; C14-m16).
+//@ func Terminal.updatePromptOffset
+//@ property C14
+//@ requires t != nil && 0 <= t.cx && t.cx <= len(t.input) && len(t.input) < 2147483648
+//@ modifies t.xoffset, t.queryLen
+//@ ensures 0 <= t.xoffset && t.xoffset <= t.cx
+//@ func Terminal.trimLeft
+//@ property C14
+//@ requires t != nil && len(runes) < 2147483648
+//@ ensures 0 <= r1 && r1 <= len(runes) && len(r0) == len(runes) - r1
+//@ loop 1
+//@   invariant 0 <= trimmed && trimmed + len(runes) == old(len(runes))
 // (display widths come from the uniseg library: assumed non-negative)
 //@ func Terminal.displayWidth trusted
 //@ ensures result >= 0
 //@ package github.com/junegunn/fzf/src/util
 //@ func StringWidth trusted
 //@ ensures result >= 0
+// (the index RunesWidth reports is the start of a grapheme cluster of runes - uniseg partitions the text: assumed)
+//@ func RunesWidth trusted
+//@ ensures r1 == -1 || (0 <= r1 && r1 < len(runes))
 //@ package github.com/junegunn/fzf/src
 
 // acceptNth (--accept-nth): the fields are taken from the line as it would be printed - the original record, with
